@@ -41,6 +41,7 @@ type pipeCase struct {
 	Lang      *langCase         `json:"lang"` // a J5Lang construct (printed with langFiles)
 	Rules     *rlReflectCase    `json:"rules"` // a J5Rules declaration: every rule / annotation of the catalogue (printed with rlFileText)
 	Cls       string            `json:"cls"`
+	AST       json.RawMessage   `json:"ast"` // {"pkgs": [...]}: a bundle of spec/J5Schema.tla
 }
 
 func init() { register("pipeline", pipelineDriver) }
@@ -494,6 +495,9 @@ func c15Check(out *Out, cls string, api *source_j5pb.API) {
 				out.V("C15|re-export-error|"+errClass(err.Error())+"|"+cls, "re-export of %s.%s: %v", pkgName, n, err)
 				continue
 			}
+			if os.Getenv("VERIF_DEBUG_C15") != "" {
+				fmt.Fprintf(os.Stderr, "C15DEBUG %s.%s\n  orig  %v\n  again %v\n", pkgName, n, orig, again)
+			}
 			if !proto.Equal(orig, again) {
 				kind := "object"
 				switch orig.Type.(type) {
@@ -508,6 +512,9 @@ func c15Check(out *Out, cls string, api *source_j5pb.API) {
 		}
 	}
 	for _, p := range api.Packages {
+		if os.Getenv("VERIF_DEBUG_C15") != "" {
+			fmt.Fprintf(os.Stderr, "C15DEBUG package %s: %d schemas, %d subpackages\n", p.Name, len(p.Schemas), len(p.SubPackages))
+		}
 		check(p.Name, p.Schemas)
 		for _, sp := range p.SubPackages {
 			check(p.Name+"."+sp.Name, sp.Schemas)
@@ -679,7 +686,7 @@ func c16Client(out *Out, cls string, files []protoreflect.FileDescriptor, api *c
 			jn := fields.Get(i).JSONName()
 			inPath, inRest := pathNames[jn], rest[jn]
 			if inPath == inRest {
-				out.V("C16|client|request-split|"+cls, "method %s (%s): request property %s is in path=%v and %s=%v", d.grpc, d.verb, jn, inPath, where, inRest)
+				out.V("C16|client|request-split|"+cls, "method %s (%s): request property %s is in path=%v and %s=%v (path parameters %v, %s properties %v, path %q)", d.grpc, d.verb, jn, inPath, where, inRest, keysOf(pathNames), where, keysOf(rest), m.HttpPath)
 			}
 		}
 		if len(pathNames)+len(rest) != fields.Len() {
@@ -877,7 +884,11 @@ func pipelineDriver(raw json.RawMessage) *Out {
 				cls = "ast"
 			}
 			var b schemaBundle
-			b, err = parseAST(raw)
+			b, err = parseAST(c.AST)
+			if err == nil && len(b) == 0 {
+				out.Skip = "bad case: no bundle"
+				return out
+			}
 			if err == nil {
 				compile(func() error {
 					var e error
@@ -900,7 +911,14 @@ func pipelineDriver(raw json.RawMessage) *Out {
 		}
 	}
 	stages["compile"] = "ok"
+	if len(originals) == 0 {
+		// nothing was compiled: the stages would run on nothing and every check would hold vacuously
+		out.Skip = "bad case: no file compiled"
+		out.Note = "EMPTY-PROGRAM"
+		return out
+	}
 	out.Nontrivial = true
+	out.Obs = map[string]any{"files": len(originals)}
 	out.Key = cls + fmt.Sprintf("|%d files|", len(originals)) + string(raw)[:min(len(raw), 4000)]
 
 	// ---- Print, Reparse, Reprint (C05)
